@@ -916,6 +916,67 @@ def cancelled_waiter_case(rng, ver, role):
     return [cfg] + ops
 
 
+def idle_suffix(case, obs):
+    """(tasks polled in the trailing idle round, tasks pending at the end): the trailing poll operations during
+    which the observation did not change and nothing was written"""
+    fs = [[int(x) for x in f.split(",")] if f else [] for f in case.split(";")]
+    ops = fs[1:]
+    of = obs.split(";")
+    if len(of) != len(ops) or not ops:
+        return set(), []
+    last = [int(x) for x in of[-1].split(",")]
+    if len(last) < 9 or 255 not in last:
+        return set(), []
+    body = last[8:last.index(255)]
+    pend = [body[j] for j in range(0, len(body) - 1, 2) if body[j] < 100 and body[j + 1] == 1]
+    polled = set()
+    j = len(ops) - 1
+    while j >= 1 and ops[j] and ops[j][0] == 2 and len(ops[j]) == 2 and of[j] == of[j - 1] and of[j].endswith(",255"):
+        polled.add(ops[j][1])
+        j -= 1
+    return polled, pend
+
+
+def closing_cases(rng, ver, role=0, count=600):
+    """a random schedule, optionally an acknowledgement that wakes a parked sender, then the end of the connection
+    (close, force_close, or a mismatching acknowledgement in the same write as a good one), then every task is
+    polled until nothing changes: every pending future must have resolved"""
+    out = []
+    for _ in range(count):
+        c = rand_case(rng, ver, role, maxlen=rng.choice([6, 10, 16, 24]),
+                      flavour=rng.choice(["window", "window", "mixed", "stream", "qos2"]))
+        fs = [[int(x) for x in f.split(",")] for f in c.split(";")]
+        s = Sim(ver, fs[0][0], role != 0)
+        ops = fs[1:]
+        for op in ops:
+            s.step(op)
+        end = rng.choice(["close", "force", "badack", "ack+close", "ack+force", "ack+badack"])
+        head = None
+        if s.io == 0 and s.inflight:
+            i, _, tp = s.inflight[0]
+            if not (role == 0 and tp in (4, 5)):
+                head = [tp, i]
+        if end.startswith("ack+") and head is not None and end != "ack+badack":
+            ops.append([4] + head)
+            s.step(ops[-1])
+        if end.endswith("close"):
+            ops.append([10])
+        elif end.endswith("force"):
+            ops.append([11])
+        elif end == "ack+badack" and head is not None:
+            ops.append([5] + head + [1, 60000])
+        else:
+            ops.append([4, 1, 60000])
+        s.step(ops[-1])
+        for _ in range(3):
+            for t in sorted(s.tasks):
+                if s.tasks[t].st != "dropped":
+                    ops.append([2, t])
+                    s.step(ops[-1])
+        out.append(line([fs[0]] + ops))
+    return out
+
+
 def quiesced_cases(rng, ver, role=0, count=1000):
     out = []
     for _ in range(count // 4):
